@@ -47,6 +47,10 @@ Do(op) == /\ Valid(fs, op)
                                                           names |-> SetToSeq(res.r.names)]])
 
 Next == \E op \in Ops(fs) : Do(op)
+\* the same machine restricted to whole-file reads (simulation with one or two names and one unit: names are re-used,
+\* overwritten with the bytes they already hold, read through descriptors that predate the overwrite)
+FocusOps(s) == {op \in Ops(s) : op.op # "list" /\ (op.op = "readat" => op.off = 0 /\ op.len = MaxLen + 1)}
+NextFocus == \E op \in FocusOps(fs) : Do(op)
 Spec == Init /\ [][Next]_vars
 
 -----------------------------------------------------------------------------
